@@ -72,6 +72,15 @@ CHECKS = {
             "instantiate (and import) allowed, import side effects and constructor canaries never fire otherwise; crafted payloads never import "
             "or construct.",
             "DESIGN.md C09", "Known finding: exception groups arrive as a generic stand-in."),
+    "C16": ("exploration",
+            "deterministic simulation with fault injection at the byte level: good clients (real client stack) and bad clients (raw simulated sockets playing hostile scripts) interleaved against real servers; bounded liveness in virtual time",
+            "Seeded search over server configurations (threaded / thread pool with drawn sizes / one-shot / forking on a modelled fork; service class "
+            "or shared instance; with or without a reading authenticator) x 2-8 interleaved clients x thread schedules. Bad clients: random bytes, "
+            "garbage brine, corrupt zlib, truncated frames then reset / half-close / silence, absurd length fields, disconnects around accept, "
+            "authentication failure / partial / silence, identifiers harvested on another connection. Oracle: every good answer correct, tokens and "
+            "references never cross connections, one service instance per connection, and - once the bad scripts have run - every good request and "
+            "a fresh good client are served within 5 virtual seconds (no rpyc timeout counts as served); accept loop and pool threads alive.",
+            "DESIGN.md C16", "Known findings D9a/D9b (pool workers pinned by stalled clients; authenticator on the accept thread)."),
     "C17": ("exploration",
             "deterministic simulation: real servers on an in-memory kernel that owns the descriptor table; seeded connect/call/leave histories with server.close() at a drawn point under seeded thread schedules",
             "Seeded search over histories (1-6 clients: connect, call, hold reference, slow call in flight, graceful close, abrupt reset; "
